@@ -61,3 +61,10 @@ def rules(t):
     out.append(W3.replies_behind_token_gate(t, "C19.h"))
     out.append(W3.index_space(t, "C19.i"))
     return out
+
+_rules_c19_w5 = rules
+def rules(t):
+    import rules.shared as shared
+    out = _rules_c19_w5(t)
+    shared.share(t, out, "C19.j", "a half-open entry is dropped in the update() that passes its token's expiry (tested against the advanced clock), so an expired handshake gets no answer", "C05", ("C05.e",))
+    return out
